@@ -59,7 +59,7 @@ mod verif_c16_counters {
             j += 1;
         }
         assert!(st.cleanup_count == cc, "sweep counter untouched");
-        kani::cover!(seen, "existing counter");
+        kani::cover!(N == 0 || seen, "existing counter");
         kani::cover!(!seen, "new counter");
         kani::cover!(true, "reach_end");
     }
